@@ -1,6 +1,6 @@
 (* C07/Witness.v — non-vacuity examples; the regression inputs of the repaired defects, evaluated on the
    model of the code as it is now and on the models of the old rules (what each fix bought). *)
-From Verif Require Import Common.Base C07.Val C07.Model C07.Proofs.
+From Verif Require Import Common.Base C07.Val C07.Model C07.Proofs C07.Proofs2.
 
 (* capacity re-use: map with 3 entries, one removed, then a 3-entry map copied into it (the old F7
    scenario), then both sides mutated *)
@@ -45,7 +45,7 @@ Proof. vm_compute. repeat split. discriminate. Qed.
 
 (* old RemoveIf (before fix f97fa66cc): the vacated tail was not cleared.  [1;2;3] minus the first
    leaves the object of the last element reachable from TWO array entries: an address occurs twice,
-   and the separation invariant "no address occurs twice" (modelled, not yet proved) is broken. *)
+   and the separation invariant sep (Proofs2.v: preserved by every step of the CURRENT code) is broken. *)
 Definition cremove_if_old (s : cslot) (mask : list bool) : cslot :=
   match s with
   | CS (Some (a, live, tail)) =>
@@ -66,3 +66,13 @@ Example w_readonly :
   ro st 0 = true /\ writes (OLocal 0 [] (LPut 0 1 2 10 1)) 0 /\
   cstep common_schema st (OLocal 0 [] (LPut 0 1 2 10 1)) = (st, 1).
 Proof. vm_compute. repeat split. Qed.
+
+(* the hypotheses of store_is_structural_update are satisfiable: after w_prog the second entry of handle 1
+   is an object-free row, the map itself (slot 0 of the root row) is the object with address ... *)
+Example w_store_hyps :
+  let st := fst (run_c common_schema cstate0 w_prog) in
+  exists r s a, row_of st 1 = Some r /\ cget r [] = Some r /\ nth_error r 0 = Some s /\ addr_of s = Some a /\ a <> 0.
+Proof. vm_compute. eexists. eexists. eexists. repeat split; try reflexivity. discriminate. Qed.
+(* the addresses of the two handles after w_prog (capacity re-use, a removed entry, a copy) are distinct *)
+Example w_prog_ids : all_ids (fst (run_c common_schema cstate0 w_prog)) = [3; 6].
+Proof. vm_compute. reflexivity. Qed.
